@@ -24,8 +24,12 @@ package dns
 // uncompressed length Sign computes is the one PackBuffer computes again.
 //@ func msgLenWithCompressionMap [C18 C08]
 //@   requires dns != nil
+//@   ensures hdr12: ret0 >= 12
+//@   loop * invariant l >= 12
 //@   modifies MS.mapLstringJstruct__@compression
 //@   deterministic
+//@ func (*Question).len [C08]
+//@   ensures nonneg: ret0 >= 5
 
 // PackBuffer packs into the caller's buffer whenever it can hold the uncompressed message plus one octet,
 // whatever the compression setting (the message is packed uncompressed-sized first).
@@ -38,5 +42,16 @@ package dns
 // can only mean the signed message exceeds 65535 octets.
 //@ func (*SIG).Sign [C18]
 //@   requires rr != nil && m != nil
-//@   opt no-safety
+//@   assume at "off, err := PackRR(rr, buf, len(mbuf), nil, false)" c08: len(mbuf) < len(buf)
+//@   ghost adc0 at "buf = buf[:off:cap(buf)]" buf[10] * 256 + buf[11]
+//@   exit arcount: ret1 == nil ==> ret0[10] * 256 + ret0[11] == (adc0 + 1) % 65536
 //@   assert at "if &buf[0] != &mbuf[0] {" inplace: ref(buf) == ref(mbuf) && sliceoff(buf) == sliceoff(mbuf)
+
+// the signing helpers build their results in fresh memory and leave every caller buffer alone
+//@ func intToBytes [C18 C10]
+//@   opt no-safety
+//@   fresh
+//@   pure
+//@ func sign [C18 C10]
+//@   opt no-safety
+//@   pure
